@@ -595,3 +595,17 @@ m("x7-bitmap-closure-arms-swapped", "C09,C05,C16", AB, """        for n in first
             });""", "R9.6.polarity")
 m("x7-endian-eq-ordering-is-le", "C20", EN, "                self.0 == $old_type::$to_new(*other)", "                self.to_native().cmp(other).is_le()", "R20.1.eq")
 m("x7-endian-eq-ordering-wrong-side", "C20", EN, "                self.0 == $old_type::$to_new(*other)", "                self.0.cmp(other).is_eq()", "R20.1.eq")
+
+# check_range spelt with matches! (accepted since the corrected twins of round 8), each with one defect
+_CR_ORIG = """        match self.try_access(len, base, |_, count, _, _| -> Result<usize> { Ok(count) }) {
+            Ok(count) => count == len,
+            _ => false,
+        }"""
+def _cr(guard="Ok(count) if count == len"):
+    return f"""        matches!(
+            self.try_access(len, base, |_, count, _, _| -> Result<usize> {{ Ok(count) }}),
+            {guard}
+        )"""
+m("x7-check-range-matches-any-ok", "C02", GM, _CR_ORIG, _cr("Ok(_)"), "R2.3.check_range")
+m("x7-check-range-matches-le", "C02", GM, _CR_ORIG, _cr("Ok(count) if count <= len"), "R2.3.check_range")
+m("x7-check-range-matches-nonzero", "C02", GM, _CR_ORIG, _cr("Ok(count) if count == len && len != 0"), "R2.3.check_range")
